@@ -6,7 +6,7 @@
      Clean k                                    (kernel cleaner: one process_ccq_entry callback)
    cf = (timeouts, which handleNATEntries: pinned or repaired).  The kernel steps Clean/Packet are hand models of C code. *)
 From Coq Require Import List NArith ZArith Bool.
-From Verif.C14 Require Import Model Spec Proofs Safety SafetyCor Liveness LivenessGen FullScan MeetsSpec MeetsSpecC Witness.
+From Verif.C14 Require Import Model Spec Proofs TimeoutTable Safety SafetyCor Liveness LivenessGen FullScan MeetsSpec MeetsSpecC Witness.
 Import ListNotations.
 Open Scope Z_scope.
 
@@ -15,6 +15,59 @@ Theorem c14_timeout_table : forall t now p e,
   expired t now p e = idle_past_timeout t now p e.
 Proof. exact expired_iff_idle. Qed.
 Print Assumptions c14_timeout_table.
+
+(* THE TABLE, STATE BY STATE.  An entry is judged expired ONLY IF its idle time  now - last_seen  exceeds the timeout of a
+   rule that applies to its protocol and state (Spec.rule_applies / rule_timeout: RST seen, FINs seen, established or
+   DSR with a recorded RST time -> fixed 120 s, established or DSR, pre-established, ICMP, UDP, generic), and the reason
+   entryDone reports is such a rule ... *)
+Theorem c14_expired_only_if_idle : forall t now p e,
+  expired t now p e = true ->
+  exists r, entry_done t now p e false = Some r /\ rule_applies p e r = true /\ now - e_ls e > rule_timeout t r.
+Proof. exact expired_only_if_idle. Qed.
+Print Assumptions c14_expired_only_if_idle.
+
+(* ... and IF the idle time exceeds the timeout of any applicable rule the entry is judged expired. *)
+Theorem c14_idle_past_a_rule_expires : forall t now p e r,
+  rule_applies p e r = true -> now - e_ls e > rule_timeout t r -> expired t now p e = true.
+Proof. exact idle_past_a_rule_expires. Qed.
+Print Assumptions c14_idle_past_a_rule_expires.
+
+(* Both functions, with their reasons: whatever EntryExpired (fin = false) / EntryFinished (fin = true) answers passes the
+   oracle that the correspondence run applies to the real functions' answers (a reported reason is a rule that fires;
+   "not done" only if no rule fires). *)
+Theorem c14_entry_done_meets_spec : forall t now p e fin,
+  ok_answer t now p e fin (entry_done t now p e fin) = true.
+Proof. exact entry_done_ok. Qed.
+Print Assumptions c14_entry_done_meets_spec.
+
+(* The verdict is a function of the idle time alone: moving the clock and last_seen together changes nothing, and the
+   VALUE of the recorded RST time (calico_ct_value.rst_seen) never matters, only whether one is recorded.  (The seeded
+   change that measures the 120 s window from rst_seen breaks exactly this.) *)
+Theorem c14_verdict_depends_on_idle_time_only : forall t now p e d fin,
+  entry_done t (now + d) p (with_ls e (e_ls e + d)) fin = entry_done t now p e fin.
+Proof. exact expired_shift. Qed.
+Print Assumptions c14_verdict_depends_on_idle_time_only.
+
+Theorem c14_rst_time_value_irrelevant : forall t now p e z z' fin,
+  z <> 0 -> z' <> 0 -> entry_done t now p (with_rstts e z) fin = entry_done t now p (with_rstts e z') fin.
+Proof. exact expired_rst_time_irrelevant. Qed.
+Print Assumptions c14_rst_time_value_irrelevant.
+
+(* EntryFinished = EntryExpired or "TCP in a FINs-seen state" (the comment on EntryExpired: if it returns true,
+   EntryFinished would also return true). *)
+Theorem c14_finished_iff : forall t now p e,
+  finished t now p e = expired t now p e || rule_applies p e 2%N.
+Proof. exact finished_iff. Qed.
+Print Assumptions c14_finished_iff.
+
+(* timeouts.GetTimeouts (values already through time.ParseDuration; "Auto" not modelled): the table carries exactly the
+   configured durations and the defaults elsewhere; the defaults are non-negative. *)
+Theorem c14_get_timeouts_meets_spec : forall cfg, ok_cfg cfg (get_timeouts cfg) = true.
+Proof. exact get_timeouts_ok. Qed.
+Print Assumptions c14_get_timeouts_meets_spec.
+Theorem c14_default_timeouts_nonneg : tm_nonneg default_timeouts /\ get_timeouts [] = default_timeouts.
+Proof. split; [exact default_nonneg|exact get_timeouts_empty]. Qed.
+Print Assumptions c14_default_timeouts_nonneg.
 
 (* SAFETY, all interleavings.  From a start state with empty queue and pairing table, timestamps not in the future and
    no all-zero key, after ANY history `pre` (dataplane rewrites never create the all-zero key): if the cleaner callback
@@ -89,7 +142,7 @@ Print Assumptions c14_fwd_alone_only_orphan_fixed.
 Theorem c14_pair_split_pinned_refuted :
   let s := run pinned w_s0 w_trace in
   lookup kF (ct s) = None /\
-  lookup kR (ct s) = Some (mkE KRev (5000 * sec + 2) dummy false false est est).
+  lookup kR (ct s) = Some (mkE KRev (5000 * sec + 2) dummy false 0 est est).
 Proof. exact split_pinned. Qed.
 Print Assumptions c14_pair_split_pinned_refuted.
 
